@@ -242,21 +242,49 @@ pub fn rate(rng: &mut Rng) -> RateKind {
 // Data and erasure sets
 
 pub fn originals(rng: &mut Rng, k: usize, size: usize) -> Vec<Vec<u8>> {
-    // mostly random; sometimes sparse so that zero symbols occur
-    let sparse = rng.chance(1, 8);
-    (0..k)
-        .map(|_| {
-            let mut v = rng.bytes(size);
-            if sparse {
-                for b in v.iter_mut() {
+    // mostly random; sometimes sparse (zero symbols occur) or structured
+    // (zero runs, constant bytes, repeated shards, small big-endian integers) -
+    // data that uniformly random bytes would never produce
+    let mode = rng.below(16);
+    let mut v: Vec<Vec<u8>> = Vec::with_capacity(k);
+    for i in 0..k {
+        let mut s = rng.bytes(size);
+        match mode {
+            0 | 1 => {
+                for b in s.iter_mut() {
                     if rng.chance(3, 4) {
                         *b = 0;
                     }
                 }
             }
-            v
-        })
-        .collect()
+            2 => match rng.below(6) {
+                0 => s.fill(0),
+                1 => {
+                    let c = *rng.pick(&[0x01u8, 0xff, 0x80, 0x55]);
+                    s.fill(c);
+                }
+                2 => {
+                    let h = size / 2;
+                    s[..h].fill(0);
+                }
+                3 => {
+                    // 8-byte big-endian integers below 2^32
+                    for c in s.chunks_mut(8) {
+                        let n = c.len().min(4);
+                        c[..n].fill(0);
+                    }
+                }
+                4 if i > 0 => {
+                    let j = rng.below(i);
+                    s = v[j].clone();
+                }
+                _ => {}
+            },
+            _ => {}
+        }
+        v.push(s);
+    }
+    v
 }
 
 /// A received set with at least k members: (original indexes, recovery
